@@ -251,19 +251,24 @@ Proof.
     rewrite make_unit_vector_id by exact Hu. exact Hu.
 Qed.
 
-(** since repair 176dbfb [Base.Vec3.rotate_raw] is the repaired copy: the polar
-    angle is preserved for every unit [rot] (this lemma stops compiling if Base is
-    switched back to the pinned text) *)
-Lemma base_rotate_new : forall m (d r : vec3 R), rotate_raw m d r = rotate_raw_new m d r.
-Proof. intros; reflexivity. Qed.
-
-Theorem rotate_preserves_polar (dir rot : vec3 R) : unitv dir -> unitv rot ->
+(** the tree's [rotate] ([Base.Vec3.rotate], currently the pinned text; the proof
+    goes through [base_rotate_is] and survives a switch of Base to the candidate
+    repair): polar angle preserved under the branch hypothesis *)
+Theorem rotate_preserves_polar (dir rot : vec3 R) : unitv dir -> unitv rot -> rot_branch_ok rot ->
   dot (rotate (min_acc (T:=R)) dir rot) rot = vz dir.
 Proof.
-  intros Hd Hr. unfold rotate. rewrite base_rotate_new.
-  pose proof (rotate_raw_sel_unit true dir rot Hd Hr) as Hu. cbn [rotate_raw_sel] in Hu.
-  rewrite make_unit_vector_id by exact Hu. apply (rotate_raw_sel_polar true); auto.
+  intros Hd Hr Hb. unfold rotate.
+  destruct base_rotate_is as [E|E]; rewrite E.
+  - pose proof (rotate_raw_sel_unit false dir rot Hd Hr) as Hu. cbn [rotate_raw_sel] in Hu.
+    rewrite make_unit_vector_id by exact Hu. apply (rotate_raw_sel_polar false); auto.
+  - pose proof (rotate_raw_sel_unit true dir rot Hd Hr) as Hu. cbn [rotate_raw_sel] in Hu.
+    rewrite make_unit_vector_id by exact Hu. apply (rotate_raw_sel_polar true); auto.
 Qed.
+
+(** the tree's rotate IS the pinned copy (stops compiling when Base is repaired:
+    then re-target the _refuted statements) *)
+Lemma base_rotate_old : forall m (d r : vec3 R), rotate_raw m d r = rotate_raw_old m d r.
+Proof. intros; reflexivity. Qed.
 
 (** the pinned code preserved it only under the branch hypothesis *)
 Theorem rotate_old_preserves_polar (dir rot : vec3 R) : unitv dir -> unitv rot -> rot_branch_ok rot ->
@@ -338,12 +343,12 @@ Proof. reflexivity. Qed.
 
 Lemma exiting_direction_spec (c : R) (d : vec3 R) s v s' :
   exiting_direction c d s = Some (v, s') -> -1 <= c <= 1 -> unitv d ->
-  exists u, s = u :: s' /\ unitv v /\ dot v d = c.
+  exists u, s = u :: s' /\ unitv v /\ (rot_branch_ok d -> dot v d = c).
 Proof.
   intros E Hc Hd. destruct s as [|u s0]; [discriminate|]. rewrite exiting_direction_run in E.
   inversion E; subst. exists u. split; [reflexivity|].
   pose proof (from_spherical_unitv c ((twopi - 0) * u + 0) Hc) as Hf.
-  split; [apply rotate_unit; assumption|]. rewrite rotate_preserves_polar by assumption. reflexivity.
+  split; [apply rotate_unit; assumption|]. intros Hb. rewrite rotate_preserves_polar by assumption. reflexivity.
 Qed.
 
 (** |p_in d_in - p_out d_out|^2 for unit vectors *)
@@ -365,4 +370,14 @@ Proof.
   assert (Hq : 0 < (pin - pout) * (pin - pout)).
   { destruct (Rtotal_order pin pout) as [Hlt|[He|Hgt]]; [nra|contradiction|nra]. }
   nra.
+Qed.
+
+(** the same refutation stated about the tree's [Base.Vec3.rotate] *)
+Theorem rotate_preserves_polar_small_branch_refuted :
+  exists dir rot : vec3 R, unitv dir /\ unitv rot /\
+    0 < sintheta_of rot < 5 / 1000 /\ vy rot < 0 /\
+    dot (rotate (min_acc (T:=R)) dir rot) rot <> vz dir.
+Proof.
+  destruct rotate_old_preserves_polar_small_branch_refuted as (d & r & H1 & H2 & H3 & H4 & H5).
+  exists d, r. repeat split; try assumption; try tauto.
 Qed.
